@@ -1,21 +1,14 @@
 import Thanos.Model.IndexHeader
+import Thanos.Lemmas.IndexHeader
 import Thanos.Generated.Facts
 /-
   C11 — Binary index-header answers equal the full index.
+
+  The postings offset table of one label name is a strictly increasing list of (value, posting
+  offset); label values are compared through their ranks (the harness supplies them), so the
+  theorems hold for every table, of any size.
 -/
 namespace Thanos.IndexHeader
-
-/-- the table of one label name: values strictly increasing -/
-def StrictlyIncreasing : List (Nat × Nat) → Prop
-  | [] => True
-  | [_] => True
-  | a :: b :: rest => a.1 < b.1 ∧ StrictlyIncreasing (b :: rest)
-
-/-- the requested values are sorted (duplicates allowed) -/
-def Sorted : List Nat → Prop
-  | [] => True
-  | [_] => True
-  | a :: b :: rest => a ≤ b ∧ Sorted (b :: rest)
 
 /-- C11, lookup part, at full strength: for every sampling rate, every table and every sorted list
     of requested values (duplicates, absent values), the header finds exactly the locations the
@@ -25,6 +18,66 @@ def C11_lookup_full : Prop :=
     n ≥ 1 → tbl ≠ [] → StrictlyIncreasing tbl → Sorted values →
     lookup (sample n tbl) tbl lastValOffset values = .ok (specLookup tbl lastValOffset values)
 
+/-- what `init` keeps in memory of a label name's table: the entries at the multiples of the
+    sampling rate, and the last one — each with its position in the table -/
+theorem C11_sample_spec (n : Nat) (tbl : List (Nat × Nat)) :
+    sample n tbl =
+      tbl.zipIdx.filterMap fun ek => if keptAt n tbl.length ek.2 then some (ek.1.1, ek.2) else none := by
+  have := sampleFrom_spec n tbl 0
+  simpa [sample] using this
+
+/-- LabelValues returns every value of the label name, in table order, for every sampling rate -/
+theorem C11_labelValues_all (n : Nat) (hn : n ≥ 1) (tbl : List (Nat × Nat)) (hne : tbl ≠ [])
+    (hs : StrictlyIncreasing tbl) : labelValues (sample n tbl) tbl = .ok (tbl.map (·.1)) := by
+  cases tbl with
+  | nil => exact absurd rfl hne
+  | cons e rest =>
+    obtain ⟨v, p⟩ := e
+    obtain ⟨more, hsm⟩ := sample_head n hn v p rest
+    have hlast : ∃ e, ((v, p) :: rest).getLast? = some e := by
+      cases h : ((v, p) :: rest).getLast? with
+      | none => simp at h
+      | some e => exact ⟨e, rfl⟩
+    obtain ⟨e, he⟩ := hlast
+    have hg := sampleFrom_getLast n ((v, p) :: rest) 0 e he
+    have hgo := labelValues_go ((v, p) :: rest) e hs he
+    have hg' : (sample n ((v, p) :: rest)).getLast? = some (e.1, 0 + ((v, p) :: rest).length - 1) := hg
+    unfold labelValues
+    rw [hsm] at hg' ⊢
+    simp only [hg']
+    simpa using hgo
+
+/-! ### regenerated facts: the control skeleton of the lookup and the sampling tests of `init`
+    are the ones transliterated in Model/IndexHeader.lean -/
+
+theorem C11_lookup_skeleton_fact :
+    Thanos.Facts.postingsOffsetConds =
+      ["if:len(values) == 0",
+       "for:valueIndex < len(values) && values[valueIndex] < e.offsets[0].value",
+       "for:valueIndex < len(values)",
+       "if:i == len(e.offsets)",
+       "for:len(rngs) < len(values)",
+       "if:i > 0 && e.offsets[i].value != wantedValue",
+       "for:d.Err() == nil",
+       "if:len(newSameRngs) > 0",
+       "for:string(value) >= wantedValue",
+       "if:string(value) == wantedValue",
+       "if:valueIndex == len(values)",
+       "if:len(newSameRngs) == 0 && i+1 < len(e.offsets)",
+       "if:wantedValue >= e.offsets[i+1].value",
+       "break Iter",
+       "if:i+1 == len(e.offsets)",
+       "if:valueIndex != len(values) && wantedValue <= e.offsets[i+1].value",
+       "if:wantedValue == e.offsets[i+1].value",
+       "if:len(newSameRngs) > 0",
+       "if:d.Err() != nil"] := by decide
+
+theorem C11_sampling_fact :
+    Thanos.Facts.headerSamplingConds =
+      ["if:(valueCount-1)%r.postingOffsetsInMemSampling != 0",
+       "if:(valueCount-1)%r.postingOffsetsInMemSampling == 0",
+       "if:(valueCount-1)%r.postingOffsetsInMemSampling != 0"] := by decide
+
 theorem lookup_nil (offs : List Sampled) (tbl : List (Nat × Nat)) (l : Int) :
     lookup offs tbl l [] = .ok [] := rfl
 
@@ -33,5 +86,7 @@ example : lookup (sample 2 [(0, 100), (2, 200), (4, 300), (6, 400), (8, 500)])
     [(0, 100), (2, 200), (4, 300), (6, 400), (8, 500)] 996 [0, 1, 2, 2, 6, 8, 9] =
     .ok (specLookup [(0, 100), (2, 200), (4, 300), (6, 400), (8, 500)] 996 [0, 1, 2, 2, 6, 8, 9]) := by
   rfl
+example : sample 3 [(0, 100), (2, 200), (4, 300), (6, 400), (8, 500)] = [(0, 0), (6, 3), (8, 4)] := by decide
+example : sample 2 [(0, 100), (2, 200), (4, 300), (6, 400), (8, 500)] = [(0, 0), (4, 2), (8, 4)] := by decide
 
 end Thanos.IndexHeader
